@@ -114,6 +114,15 @@ def verdictVerify (H : Node → Node) (op : VOp) (o : VObs) : Option String :=
     some s!"site={siteOf op.indexed}.fold verifier says {o.raw} but the independent fold says {(wantOf H op).line}"
   else tagCheck (siteOf op.indexed) op.tag (o.ans == some .accept)
 
+/-- a `verifyj` line: the proof vector handed to the verifier holds an element that is NOT a 32-byte
+string (a host vector is only type-checked element by element, when read). Such a vector is no proof of
+anything: the verifier must not accept — it returns false or fails -/
+def verdictJunk (indexed : Bool) (o : VObs) : Option String :=
+  if o.ans = some .accept then
+    some s!"site={siteOf indexed}.accept.junk a proof vector holding an element that is not a 32-byte string was accepted"
+  else if o.ans = none then some s!"site={siteOf indexed}.junk unreadable answer {o.raw}"
+  else none
+
 /-! ### the distributor part -/
 
 /-- the observed index universe of a sequence: `0..w` and the two top u32 values -/
